@@ -8,6 +8,7 @@ package mc
 // lattice x every single (thorough: double) packet fault among the survivors.
 
 import (
+	"os"
 	"fmt"
 	"strings"
 	"testing"
@@ -430,6 +431,11 @@ func TestC03(t *testing.T) {
 			x = runDetect(t, *rp.Det)
 		}
 		t.Logf("replay: %q %s", x.Verdict, x.Msg)
+		if os.Getenv("MC_DUMP_PTS") != "" {
+			for i, p := range x.Pts {
+				t.Logf("pt %d: %s n=%d pick=%d %s", i, p.Kind, p.N, p.Pick, p.Desc)
+			}
+		}
 		if x.Verdict != "" {
 			rep.Violate(x.Verdict, x.Msg, rp)
 		}
